@@ -13,6 +13,7 @@ import json, os, re, sys
 
 VERIF = os.path.dirname(os.path.dirname(os.path.abspath(__file__)))
 T = os.path.join(VERIF, "specs", "templates")
+T_ = T
 TB = os.path.join(VERIF, "specs", "tables")
 
 ALPHABET = "abcdefghijklmnopqrstuvwxyz-'àâäçéèêëîïôöùûüáíóúñãõìòßij ,"
@@ -125,6 +126,11 @@ ARMS_CURRENT = []
 def emit_rows(c, rows, word_facts, row_stmt, nmod=8, props="C01, C04, C08, C16", row_params="o: DsView"):
     """rows: list of dicts with at least `word`,`desc`; word_facts(row) -> (ensures_text, [compute asserts]); row_stmt(row) -> ensures text"""
     inner = []
+    names = [wname(r["word"]) for r in rows]
+    assert len(set(names)) == len(names), "duplicate row word: " + str([n for n in names if names.count(n) > 1])
+
+    def rname(r):
+        return wname(r["word"])
     mods = [[] for _ in range(nmod)]
     mw = sorted(set(w for ws, _, _ in ARMS_CURRENT for w in ws))
     done_ne = set()
@@ -146,9 +152,9 @@ def emit_rows(c, rows, word_facts, row_stmt, nmod=8, props="C01, C04, C08, C16",
         inner += ["    " + a for a in asserts]
         inner.append("}")
         b = mods[k % nmod]
-        b.append(f"    // props: {props}")
+        b.append(f"    // props: {r.get('props', props)}")
         b.append(f"    /// grammar row `{r['word']}` -> {r['desc']}")
-        b.append(f"    pub proof fn lemma_{c}_row_{k}({row_params})")
+        b.append(f"    pub proof fn lemma_{c}_row_{rname(r)}({row_params})")
         b.append(f"        ensures {row_stmt(r)}")
         b.append("    {")
         b.append(f"        {c}_ne_{wname(lw)}(); lemma_{c}_word_{k}(); reveal({c}_status);")
@@ -157,7 +163,7 @@ def emit_rows(c, rows, word_facts, row_stmt, nmod=8, props="C01, C04, C08, C16",
     for k, r in enumerate(rows):
         if r["word"] == ",":
             o.append(f"/// a comma is refused by the interpreter, and not as `incomplete`")
-            o.append(f"pub proof fn lemma_{c}_comma(o: DsView) ensures {row_stmt(r)}, {word_facts(r)[0]} {{ {c}_rows_{k % nmod}::lemma_{c}_row_{k}(o); lemma_{c}_word_{k}(); }}")
+            o.append(f"pub proof fn lemma_{c}_comma(o: DsView) ensures {row_stmt(r)}, {word_facts(r)[0]} {{ {c}_rows_{k % nmod}::lemma_{c}_row_{rname(r)}(o); lemma_{c}_word_{k}(); }}")
     for i, b in enumerate(mods):
         o.append(f"pub mod {c}_rows_{i} {{")
         o.append("    use vstd::prelude::*; use super::*;")
@@ -631,7 +637,129 @@ def italian():
     print(c + ":", len(arms), "arms,", len(rows), "rows,", len(allwords), "words")
 
 
-LANGS = {"en": english, "es": spanish, "fr": french, "pt": portuguese, "it": italian}
+# ------------------------------------------------------------------ German and Dutch (same shape: unit-before-ten, splitter)
+def germanic(c, T, PATS, units, fixed, tens, scales, conj, zero, lemma_of, infl, is_ord, marker, extra, extra_rows=(), more_facts=None):
+    arms = load_arms(c)
+    emit_model(c, arms, f"arm-level model of {T}::apply for a word the splitter leaves whole: (outcome, words blocked for the next word) (layer L3a)",
+               extra_params=", blocked: u64", ret="(ApRes, u64)", default="(err_res(o, Error::NaN), 0u64)")
+    rows = []
+
+    def add(w, cls, digits, n=0, desc=None):
+        mk = marker if is_ord(lemma_of(w)) else None
+        rows.append({"word": w, "cls": cls, "digits": digits, "n": n, "marker": mk, "expect": (digits + (mk or "")) if digits else None,
+                     "desc": desc or f"{cls} {digits}" + (f", marker `{mk}`" if mk else "")})
+    add(zero, "zero", "0")
+    for d, (cards, ordw) in units.items():
+        for w in cards:
+            add(w, "unit", d)
+            if c == "de" and w == "eine":
+                rows[-1]["props"] = "C01"    # the feminine form only matters for "eine Million / Milliarde"
+        for w in infl(ordw):
+            add(w, "unit", d)
+    for d, (cw, ordw) in fixed.items():
+        add(cw, "fixed", d)
+        for w in infl(ordw):
+            add(w, "fixed", d)
+    for d, (cards, ords) in tens.items():
+        for w in cards:
+            add(w, "ten", d)
+        for ow in ords:
+            for w in infl(ow):
+                add(w, "ten", d)
+    for n, (cards, ordw, cls) in scales.items():
+        for w in cards:
+            add(w, cls, "1" + "0" * n, n, f"10^{n}")
+        for w in infl(ordw):
+            add(w, cls, "1" + "0" * n, n, f"10^{n}, ordinal")
+    for w in conj:
+        add(w, "conj", "", 0, "the conjunction is only a link inside a number")
+    for r in extra_rows:
+        rows.append(r)
+    rows.append({"word": ",", "cls": "comma", "digits": "", "n": 0, "marker": None, "expect": None, "desc": "a comma is never a number word (it ends the number in progress)"})
+
+    def splittable(w):
+        return any(p in w for p in PATS) and w not in PATS
+
+    def word_facts(r):
+        w = r["word"]
+        l = lemma_of(w)
+        sp = "true" if splittable(l) else "false"
+        if splittable(l) and w != ",":
+            print("  note: row word", w, "is splittable: its table arm is never reached")
+        o = "true" if is_ord(l) else "false"
+        ens = f"{c}_lemma({W(w)}) == {W(l)}, {c}_ord_form({W(l)}) == {o}, splittable_spec({c}_pats(), {W(l)}) == {sp}"
+        asserts = [f"assert({c}_lemma({W(w)}) =~= {W(l)}) by(compute_only);", f"assert({c}_ord_form({W(l)}) == {o}) by(compute_only);",
+                   f"assert(splittable_spec({c}_pats(), {W(l)}) == {sp}) by(compute_only);"]
+        if more_facts:
+            for e_, a_ in more_facts(l):
+                ens += ", " + e_
+                asserts.append(a_)
+        return ens, asserts, l
+
+    CLS = {"zero": 0, "unit": 1, "fixed": 2, "ten": 3, "hundred": 4, "scale": 5, "conj": 6, "thousand": 7}
+
+    def row_stmt(r):
+        if r["word"] == ",":
+            return f"!{c}_model({W(',')}, o).ok && !({c}_model({W(',')}, o).err is Incomplete)"
+        dg = r["digits"]
+        d = digs(dg) if (dg and len(dg) <= 2) else "Seq::<u8>::empty()"
+        ten = f"{ord(dg[0])}u8" if r["cls"] == "ten" else "0u8"
+        o = "true" if is_ord(lemma_of(r["word"])) else "false"
+        return f"{c}_row({CLS[r['cls']]}, {d}, {ten}, {r['n']}, {o}, {W(lemma_of(r['word']))}, o, {c}_model({W(r['word'])}, o))"
+    allwords = set(w for ws, _, _ in arms for w in ws) | set(r["word"] for r in rows) | set(lemma_of(r["word"]) for r in rows) | set(extra) | set(PATS)
+    ARMS_CURRENT[:] = arms
+    inner = emit_rows(c, rows, word_facts, row_stmt, props="C01, C04, C08, C16")
+    emit_words(c, allwords, inner, arms)
+    json.dump(rows, open(os.path.join(T_, f"{c}_rows.json"), "w", encoding="utf-8"), ensure_ascii=False)
+    print(c + ":", len(arms), "arms,", len(rows), "rows,", len(allwords), "words")
+
+
+def german():
+    PATS = ["billion", "billionste", "milliarden", "milliarde", "milliardste", "millionen", "million", "millionste", "tausend", "tausendste",
+            "hundert", "hundertste", "und"]
+
+    def lemma_of(w):
+        if w.endswith(("tes", "ter", "ten", "tem")):
+            return w.rstrip("snmr")
+        return w
+
+    def infl(stem):
+        return [stem, stem + "r", stem + "s", stem + "n", stem + "m"] if stem else []
+    units = {"1": (["ein", "eins", "eine"], "erste"), "2": (["zwei", "zwo"], "zweite"), "3": (["drei"], "dritte"), "4": (["vier"], "vierte"),
+             "5": (["fünf"], "fünfte"), "6": (["sechs"], "sechste"), "7": (["sieben"], "siebte"), "8": (["acht"], "achte"), "9": (["neun"], "neunte")}
+    fixed = {"10": ("zehn", "zehnte"), "11": ("elf", "elfte"), "12": ("zwölf", "zwölfte"), "13": ("dreizehn", "dreizehnte"), "14": ("vierzehn", "vierzehnte"),
+             "15": ("fünfzehn", "fünfzehnte"), "16": ("sechzehn", "sechzehnte"), "17": ("siebzehn", "siebzehnte"), "18": ("achtzehn", "achtzehnte"),
+             "19": ("neunzehn", "neunzehnte")}
+    tens = {"2": (["zwanzig"], ["zwanzigste"]), "3": (["dreißig", "dreissig"], ["dreißigste", "dreissigste"]), "4": (["vierzig"], ["vierzigste"]),
+            "5": (["fünfzig"], ["fünfzigste"]), "6": (["sechzig"], ["sechzigste"]), "7": (["siebzig"], ["siebzigste"]), "8": (["achtzig"], ["achtzigste"]),
+            "9": (["neunzig"], ["neunzigste"])}
+    scales = {2: (["hundert"], "hundertste", "hundred"), 3: (["tausend"], "tausendste", "scale"), 6: (["million", "millionen"], "millionste", "scale"),
+              9: (["milliarde", "milliarden"], "milliardste", "scale"), 12: (["billion"], "billionste", "scale")}
+    germanic("de", "German", PATS, units, fixed, tens, scales, ["und"], "null", lemma_of, infl, lambda l: l.endswith("te"), ".",
+             ["tes", "ter", "ten", "tem", "te", "eins", "komma", "null", "zwei", "drei", "vier", "fünf", "sechs", "sieben", "acht", "neun", ""])
+
+
+def dutch():
+    PATS = ["honderd", "honderdste", "duizend", "duizendste", "miljoen", "miljoenste", "miljard", "miljardste", "biljoen", "biljoenste", "een", "drie",
+            "zeven", "zevende", "negen", "negende", "tien", "tiende", "dertien", "dertiende", "veertien", "veertiende", "vijftien", "vijftiende",
+            "zestien", "zestiende", "zeventien", "zeventiende", "achttien", "achttiende", "negentien", "negentiende", "zeventig", "zeventigste",
+            "negentig", "negentigste", "en", "ën"]
+    units = {"1": (["één", "een"], "eerste"), "2": (["twee"], "tweede"), "3": (["drie"], "derde"), "4": (["vier"], "vierde"), "5": (["vijf"], "vijfde"),
+             "6": (["zes"], "zesde"), "7": (["zeven"], "zevende"), "8": (["acht"], "achtste"), "9": (["negen"], "negende")}
+    fixed = {"10": ("tien", "tiende"), "11": ("elf", "elfde"), "12": ("twaalf", "twaalfde"), "13": ("dertien", "dertiende"), "14": ("veertien", "veertiende"),
+             "15": ("vijftien", "vijftiende"), "16": ("zestien", "zestiende"), "17": ("zeventien", "zeventiende"), "18": ("achttien", "achttiende"),
+             "19": ("negentien", "negentiende")}
+    tens = {"2": (["twintig"], ["twintigste"]), "3": (["dertig"], ["dertigste"]), "4": (["veertig"], ["veertigste"]), "5": (["vijftig"], ["vijftigste"]),
+            "6": (["zestig"], ["zestigste"]), "7": (["zeventig"], ["zeventigste"]), "8": (["tachtig"], ["tachtigste"]), "9": (["negentig"], ["negentigste"])}
+    scales = {2: (["honderd"], "honderdste", "hundred"), 3: (["duizend"], "duizendste", "thousand"), 6: (["miljoen"], "miljoenste", "scale"),
+              9: (["miljard"], "miljardste", "scale"), 12: (["biljoen"], "biljoenste", "scale")}
+    germanic("nl", "Dutch", PATS, units, fixed, tens, scales, ["en", "ën"], "nul", lambda w: w, lambda stem: [stem] if stem else [],
+             lambda l: l.endswith("te") or l.endswith("de"), "e", ["te", "de", "ste", "komma", ""],
+             more_facts=lambda l: [(f"nl_has_marker({W(l)}) == {'true' if (l.endswith('ste') or l.endswith('de')) else 'false'}",
+                                    f"assert(nl_has_marker({W(l)}) == {'true' if (l.endswith('ste') or l.endswith('de')) else 'false'}) by(compute_only);")])
+
+
+LANGS = {"en": english, "es": spanish, "fr": french, "pt": portuguese, "it": italian, "de": german, "nl": dutch}
 
 if __name__ == "__main__":
     emit_wcode()
